@@ -68,18 +68,46 @@ def coq_files():
 
 def build_harness():
     os.makedirs(os.path.join(WORK, "bin"), exist_ok=True)
+    cmd = ["go", "build", "-tags", "verif"]
+    if os.path.realpath(REPO) != "/repo":
+        # testing against another checkout of the repository (e.g. a scratch worktree with a
+        # seeded change): same harness, alternative go.mod whose replace points there
+        alt = os.path.join(WORK, "altmod")
+        os.makedirs(alt, exist_ok=True)
+        with open(os.path.join(V, "harness", "go.mod")) as f:
+            gm = f.read().replace("=> /repo", "=> " + os.path.realpath(REPO))
+        write_if_changed(os.path.join(alt, "go.mod"), gm)
+        shutil.copy(os.path.join(V, "harness", "go.sum"), os.path.join(alt, "go.sum"))
+        cmd += ["-modfile", os.path.join(alt, "go.mod")]
     # go.sum of the repository covers every dependency of the harness
-    rc, out = sh(["go", "build", "-tags", "verif", "-o", os.path.join(WORK, "bin", "harness"), "."],
+    rc, out = sh(cmd + ["-o", os.path.join(WORK, "bin", "harness"), "."],
                  cwd=os.path.join(V, "harness"), env=GOENV, timeout=600)
     return rc, out
 
-def gen_sources():
+TRANSLATORS = [("genconsts", "Gen_Consts.v"), ("genc15", "Gen_IntCodecs.v")]
+
+def gen_sources(with_effects=True):
     """translators: regenerate coq/gen/*.v from /repo's working tree"""
-    rc, out = sh([os.path.join(WORK, "bin", "harness"), "genconsts", REPO], timeout=120)
-    if rc != 0:
-        return rc, out
-    changed = write_if_changed(os.path.join(COQ, "gen", "Gen_Consts.v"), out)
-    return 0, "Gen_Consts.v %s" % ("regenerated (changed)" if changed else "unchanged")
+    msgs = []
+    for sub, fn in TRANSLATORS:
+        rc, out = sh([os.path.join(WORK, "bin", "harness"), sub, REPO], timeout=120)
+        if rc != 0:
+            return rc, "translator %s failed:\n%s" % (sub, out)
+        changed = write_if_changed(os.path.join(COQ, "gen", fn), out)
+        msgs.append("%s %s" % (fn, "regenerated (changed)" if changed else "unchanged"))
+    # store-effect summary (go/ssa), its own small module under tools/geneffects
+    gdir = os.path.join(V, "tools", "geneffects")
+    if with_effects and os.path.exists(os.path.join(gdir, "main.go")):
+        exe = os.path.join(WORK, "bin", "geneffects")
+        rc, out = sh(["go", "build", "-o", exe, "."], cwd=gdir, env=GOENV, timeout=600)
+        if rc != 0:
+            return rc, "go build geneffects failed:\n" + out
+        rc, out = sh([exe, REPO], cwd=gdir, env=GOENV, timeout=600)
+        if rc != 0:
+            return rc, "translator geneffects failed:\n" + out[-3000:]
+        changed = write_if_changed(os.path.join(COQ, "gen", "Gen_Effects.v"), out)
+        msgs.append("Gen_Effects.v %s" % ("regenerated (changed)" if changed else "unchanged"))
+    return 0, "; ".join(msgs)
 
 def sync_coqproject():
     """_CoqProject is derived from the files present (theories/*.v, gen/*.v)"""
@@ -155,13 +183,14 @@ def build_all(pid=None, driver=None):
             only = [driver]
             targets += coq_closure(os.path.join(COQ, "extract", driver + ".v"))
         targets.append(os.path.join(COQ, "gen", "Gen_Consts.v"))
+        targets.append(os.path.join(COQ, "gen", "Gen_IntCodecs.v"))
     with Lock(os.path.join(WORK, ".buildlock")):
         rc, out = build_harness()
         if rc != 0:
             return False, "go build -tags verif (harness against /repo)", out
-        rc, out = gen_sources()
+        rc, out = gen_sources(with_effects=(pid is None or pid in ("C11", "C20")))
         if rc != 0:
-            return False, "translator genconsts", out
+            return False, "translator", out
         gmsg = out
         rc, out = build_coq(targets)
         if rc != 0:
@@ -405,7 +434,7 @@ def run_check(pid, tier):
     if ok and tier == "thorough" and cfg.get("coqchk", True) and proof["ok"]:
         tc = time.time()
         rc, cout = sh(["coqchk", "-silent", "-o", "-Q", os.path.join(COQ, "theories"), "Slim", "-Q", os.path.join(COQ, "gen"), "SlimGen",
-                       "-Q", work, "SlimProps", "SlimProps." + pid], cwd=work, timeout=3000)
+                       "-R", work, "", pid], cwd=work, timeout=3000)
         coqchk = {"rc": rc, "s": round(time.time() - tc, 1), "tail": cout[-1500:]}
         if rc != 0:
             broken.append({"kind": "proof", "what": "coqchk rejected the compiled closure", "detail": cout[-2000:]})
